@@ -329,6 +329,9 @@ func (m *Morass) Clear() error {
 			m.chunk = make(sorter, 0, m.chunkSize)
 		}
 	default:
+		if m.chunk != nil {
+			m.chunk = m.chunk[:0]
+		}
 	}
 
 	return nil
